@@ -1,6 +1,6 @@
 """C18 — hint-rewriting options.
 
-R1  overrides run first: the first reducer is the one that consults ``conf.hint_overrides``
+R1  overrides run first: the first reducer (tuple found by role) consults ``conf.hint_overrides``
     and the reducer tuple is applied in order on every iteration;
 R2  every child is reduced: each child handed to the generator / the explanation path was
     produced by a sanifying producer that reaches ``reduce_hint``;
@@ -32,29 +32,48 @@ def run(ctx):
     m = repo.mod(REDMAIN)
 
     # ---- R1 ----------------------------------------------------------------------
-    ctx.rule('C18.R1', '_HINT_REDUCERS[0] is the reducer whose body reads conf.hint_overrides; reduce_hint applies the '
-             'tuple in order (a for loop over _HINT_REDUCERS inside the fixed-point loop), so a user override is seen '
-             'before any built-in reduction on every iteration')
-    red = [st for st in m.assigns.get('_HINT_REDUCERS', [])]
-    ctx.require(red and isinstance(red[-1].value, ast.Tuple) and red[-1].value.elts, 'anchor vanished: _HINT_REDUCERS')
-    first = dotted(red[-1].value.elts[0])
-    ff = m.defs.get(first)
-    reads = ff is not None and any(isinstance(x, ast.Attribute) and x.attr == 'hint_overrides' and dotted(x.value) == 'conf'
-                                   for x in ast.walk(ff))
-    ctx.ob('C18.R1', 'reducers:first-is-overrides', m.where(red[-1]),
-           'the first reducer consults conf.hint_overrides', bool(reads), f'first reducer is {first}')
-    others = [dotted(e) for e in red[-1].value.elts[1:]]
-    leak = [o for o in others if m.defs.get(o) is not None and any(
-        isinstance(x, ast.Attribute) and x.attr == 'hint_overrides' for x in ast.walk(m.defs[o]))]
-    ctx.ob('C18.R1', 'reducers:overrides-only-first', m.where(red[-1]), 'no later reducer consults the overrides', not leak, str(leak))
+    ctx.rule('C18.R1', 'the tuple of reducers that reduce_hint walks (found by role: the module-level tuple of functions '
+             'iterated by a for loop inside the fixed-point loop) starts with the reducer that reads conf.hint_overrides '
+             '(directly or through its private helpers, wherever it is defined); no later reducer reads the overrides; '
+             'every fixed-point iteration walks the whole tuple from the start, so a user override is seen before any '
+             'built-in reduction on every iteration')
+    from sa.fold import FuncVal
+    from . import _gen
+    F = _gen.engines(ctx)[0].f
     rh = m.defs.get('reduce_hint')
     ctx.require(rh is not None, 'anchor vanished: reduce_hint')
-    loops = [x for x in walk_shallow(rh) if isinstance(x, ast.For) and dotted(x.iter) == '_HINT_REDUCERS']
-    ok = len(loops) == 1 and any(isinstance(a, ast.While) for a in _anc(loops[0], rh)) \
-        and not isinstance(loops[0].iter, ast.Subscript)
+    loops = []
+    for x in walk_shallow(rh):
+        if isinstance(x, ast.For):
+            for nm in [y.id for y in ast.walk(x.iter) if isinstance(y, ast.Name) and y.id not in params_of(rh)]:
+                v = F.value(REDMAIN, nm) if nm in F.module_env(REDMAIN) else None
+                if isinstance(v, tuple) and len(v) >= 2 and all(isinstance(e, FuncVal) for e in v):
+                    loops.append((x, v))
+    ctx.require(loops, 'anchor vanished: reduce_hint iterates no module-level tuple of reducer functions')
+    lp, reducers = loops[0]
+
+    def reads_overrides(fv, depth=0):
+        for x in ast.walk(fv.node):
+            if isinstance(x, ast.Attribute) and x.attr == 'hint_overrides':
+                return True
+        if depth < 2:
+            env = F.module_env(fv.module)
+            for c in ast.walk(fv.node):
+                if isinstance(c, ast.Call) and isinstance(c.func, ast.Name) and c.func.id.startswith('_'):
+                    g = env.get(c.func.id)
+                    if isinstance(g, FuncVal) and g != fv and reads_overrides(g, depth + 1):
+                        return True
+        return False
+    ctx.ob('C18.R1', 'reducers:first-is-overrides', m.where(lp),
+           'the first reducer consults conf.hint_overrides', reads_overrides(reducers[0]), f'first reducer is {reducers[0].qualname}')
+    leak = [o.qualname for o in reducers[1:] if reads_overrides(o)]
+    ctx.ob('C18.R1', 'reducers:overrides-only-first', m.where(lp), 'no later reducer consults the overrides', not leak, str(leak))
+    ok = len(loops) == 1 and any(isinstance(a, ast.While) for a in _anc(lp, rh)) and (
+        isinstance(lp.iter, ast.Name) or (isinstance(lp.iter, ast.Call) and dotted(lp.iter.func) in ('tuple', 'list', 'iter', 'enumerate')
+                                          and len(lp.iter.args) == 1 and isinstance(lp.iter.args[0], ast.Name) and not lp.iter.keywords))
     ctx.ob('C18.R1', 'reduce_hint:applies-all-reducers-in-order', m.where(rh),
            'every fixed-point iteration walks the whole reducer tuple from the start', ok,
-           f'{len(loops)} loops over _HINT_REDUCERS')
+           f'{len(loops)} loops over the reducer tuple; iterates `{norm(lp.iter)[:60]}`')
 
     # ---- R2 ----------------------------------------------------------------------
     ctx.rule('C18.R2', 'each hint_sane= argument of enqueue_hint_child_sane and each HintDataError(…) argument is defined '
